@@ -1,7 +1,17 @@
-from props import _generic as g
+"""C17 - running out of memory inside an operation is reported, not corrupting."""
+QUICK = ["OO", "II", "fs"]
+ALL = "IO II IF IU UO UU UF UI LO LL LF LQ QO QQ QF QL OO OI OU OL OQ fs".split()
 
 
 def run(ctx):
-    fns = g.run_pyvc(ctx, "C17")
-    ctx.standin("alloc_rt", families=tuple("OO,II".split(",")))
-    return "exploration", "bounded stand-in alloc_rt (no obligation of the deductive engines serves C17 yet)"
+    fams = QUICK if ctx.tier == "quick" else ALL
+    ctx.cvc(fams, ["M-ALLOC"])
+    ctx.standin("alloc_rt", families=("OO", "II") if ctx.tier == "quick" else ("OO", "II", "fs", "LF", "QQ"))
+    return "proof", (
+        "M-ALLOC on every function of the translation units (%s) that allocates, reallocates or frees directly, "
+        "each allocation free to fail: (no-dangling-field) on every exit the keys/values/data fields of the "
+        "containers passed in are NULL or live blocks, where a successful realloc kills the old block and free "
+        "kills its argument; (failure-reported) a path on which an allocation returned NULL ends with an error "
+        "result. Soundness of the container after the failure, contents previous-or-completed and the follow-up "
+        "workload are the bounded fault enumeration alloc_rt through the guarded hook (every n, every scenario)."
+        % ", ".join(fams))
